@@ -19,6 +19,7 @@ W : the design-level aliasing patterns P1 / P2 (C13) and P3 (found here) are exc
 import json
 import os
 import random
+import re
 import threading
 import zlib
 
@@ -147,83 +148,146 @@ def _wit(hist, emb, init_name, **kw):
     return dict(scenario=init_name, history=[dict(h) for h in hist], embedding=emb.name, **kw)
 
 
-def replay_history(df, init, states_by_len, emb, part, scratch):
-    """re-execute one history; states_by_len[i] = the model's state after i calls (or None when unknown)"""
-    hist = states_by_len[-1]["hist"]
+def check_step(part, w, c, st, hist, emb, name):
+    """one executed call against the model: outcome, return identity, projected heap; True when they agree"""
+    outcome, retself, ex = w.do_call(c)
+    part.count()
+    if outcome != c["outcome"]:
+        clause = "DF_Accepts" if c["outcome"] == "ok" else "DF_Rejects"
+        part.violation(f"{clause}/{opname(c)}/{w.last_cond if ex is not None else 'accepted'}",
+                       "the library %s a call the model %s" % (("rejected", "accepts") if c["outcome"] == "ok" else ("accepted", "requires to be rejected")),
+                       _wit(hist, emb, name, exc=repr(ex)[:300]))
+        return False
+    if c["op"] in GEO and c["ip"] and outcome == "ok" and not retself:
+        part.violation(f"DF_InplaceReturnsSelf/{opname(c)}/other-object", "the in-place form did not return the object itself", _wit(hist, emb, name))
+    return compare_state(part, w, st, c, hist, emb, name)
+
+
+def replay_behaviour(df, states, emb, part, scratch):
+    """re-execute a behaviour of the model (list of states, the first one initial), comparing after every call"""
+    hist = states[-1]["hist"]
     name = hist[0]["x"]
-    w = W.World(df, init["heap"], init["roots"], emb, scratch)
-    last = len(hist) - 1
-    for i, c in enumerate(hist[1:], start=1):
-        outcome, retself, ex = w.do_call(c)
-        part.count()
-        final = i == last
-        if outcome != c["outcome"]:
-            if final:
-                clause = "DF_Accepts" if c["outcome"] == "ok" else "DF_Rejects"
-                part.violation(f"{clause}/{opname(c)}/{w.last_cond if ex is not None else 'accepted'}",
-                               "the library %s a call the model %s" % (("rejected", "accepts") if c["outcome"] == "ok" else ("accepted", "requires to be rejected")),
-                               _wit(hist[1:i + 1], emb, name, exc=repr(ex)[:300]))
+    w = W.World(df, states[0]["heap"], states[0]["roots"], emb, scratch)
+    for i, st in enumerate(states[1:], start=1):
+        c = st["hist"][-1]
+        if not check_step(part, w, c, st, [x["hist"][-1] for x in states[1:i + 1]], emb, name):
             return False
-        if c["op"] in GEO and c["ip"] and outcome == "ok" and not retself and final:
-            part.violation(f"DF_InplaceReturnsSelf/{opname(c)}/other-object", "the in-place form did not return the object itself", _wit(hist[1:i + 1], emb, name))
-        st = states_by_len[i]
-        if st is not None:
-            if not compare_state(part, w, st, c, hist[1:i + 1], emb, name):
-                return False  # reported for this prefix (by this replay if final, by the prefix's own replay otherwise)
-    if hist[-1]["outcome"] == "ok" and len(hist) > 1:
-        part.nontriv(repr(hist), emb.name)
+        if c["outcome"] == "ok":
+            part.nontriv(repr(st["hist"]), emb.name)
     return True
 
 
 # ------------------------------------------------------------------------------------------------
-def _depth(block):
-    return block.count("outcome |->") - 1
+_REC_END = re.compile(r'outcome \|-> "(?:ok|reject)" \]')
+
+
+def _hist_ends(block):
+    i = block.index("/\\ hist = ")
+    return i, [m.end() for m in _REC_END.finditer(block, i)]  # only `hist` holds records with an outcome
 
 
 def _replay_dump(ctx, df, r, embs, label, every):
+    """every dumped state is one history: histories are grouped by their prefix (all calls but the last); the prefix is
+    executed once per group and embedding, every member continues from a copy of those objects with its last call"""
     blocks = ctx.dump_blocks(r)
-    shallow = [tlaval.parse_state_text(b) for b in blocks if _depth(b) <= 1]
-    inits = {s["hist"][0]["x"]: s for s in shallow if len(s["hist"]) == 1}
-    known = {repr(s["hist"]): s for s in shallow}
-    counts = {}
+    groups, shallow = {}, []
+    for b in blocks:
+        i, ends = _hist_ends(b)
+        if len(ends) <= 2:
+            shallow.append(b)
+        if len(ends) >= 2:
+            groups.setdefault(b[i:ends[-2]], []).append(b)
+    known = {}
+    for b in shallow:
+        st = W.fastparse(b)
+        known[json.dumps(st["hist"], sort_keys=True)] = st
+    # the fast parser is part of the trusted base: it must agree with the framework's parser
+    for b in shallow[:12] + blocks[-12:]:
+        slow = W.canon(tlaval.parse_state_text(b))
+        fast = W.fastparse(b)
+        if W.spec_heap(slow["heap"]) != W.spec_heap(fast["heap"]) or slow["hist"] != fast["hist"] or W.spec_roots(slow["roots"]) != W.spec_roots(fast["roots"]):
+            raise core._tlc.MachineryError("df_world.fastparse disagrees with tlaval on a dumped state")
+    inits = {st["hist"][0]["x"]: st for st in known.values() if len(st["hist"]) == 1}
+    items = []
+    for key, members in groups.items():
+        for j in range(0, len(members), 48):
+            items.append((key, members[j:j + 48]))
 
-    def chunk(items):
+    def chunk(work):
         part = Part()
-        for b in items:
-            st = tlaval.parse_state_text(b)
-            hist = st["hist"]
-            if len(hist) > 1:
-                part.note("fired:" + action_name(hist[-1]) + (":reject" if hist[-1]["outcome"] != "ok" else ""))
-            init = inits[hist[0]["x"]]
-            seq = [None] * len(hist)
-            seq[-1] = st
-            if len(hist) > 2:
-                seq[1] = known.get(repr(hist[:2]))
-            use = embs if every else [embs[zlib.crc32(b.encode()) % len(embs)]]
-            for emb in use:
-                replay_history(df, init, seq, emb, part, ctx.scratch)
-                part.trace()
-        if items:
-            st = tlaval.parse_state_text(items[0])
+        for key, members in work:
+            prefix = W.fastparse(members[0])["hist"][:-1]
+            name = prefix[0]["x"]
+            init = inits[name]
+            for emb in (embs if every else [embs[zlib.crc32(key.encode()) % len(embs)]]):
+                base = W.World(df, init["heap"], init["roots"], emb, ctx.scratch)
+                good = True
+                for c in prefix[1:]:
+                    outcome, _, _ex = base.do_call(c)
+                    good = good and outcome == c["outcome"]
+                pst = known.get(json.dumps(prefix, sort_keys=True))
+                if good and pst is not None and len(prefix) > 1:
+                    try:
+                        got, groots, an = base.project()
+                        good = not an and not W.diff_heaps(W.spec_heap(pst["heap"]), W.spec_roots(pst["roots"]), got, groots)
+                    except (W.OffLattice, W.TooBig):
+                        good = False
+                if not good:
+                    part.note("groups_skipped_prefix_deviates")  # reported by the replay of the prefix itself
+                    continue
+                cloneable = not base.masks_shared()
+                for b in members:
+                    st = W.fastparse(b)
+                    c = st["hist"][-1]
+                    if cloneable:
+                        w = base.clone()
+                    else:
+                        w = W.World(df, init["heap"], init["roots"], emb, ctx.scratch)
+                        for pc in prefix[1:]:
+                            w.do_call(pc)
+                    if check_step(part, w, c, st, st["hist"][1:], emb, name) and c["outcome"] == "ok":
+                        part.nontriv(key, json.dumps(c, sort_keys=True), emb.name)
+                    part.trace()
+            part.note("groups")
+        if work:
+            st = W.fastparse(work[0][1][0])
             part.sample({"channel": "R", "source": label, "history": st["hist"][1:], "roots": st["roots"]})
         return part
 
-    ctx.pmap(chunk, [b for b in blocks if _depth(b) >= 1])
+    # which actions fired (every state is one history; its last call is one firing)
+    fired = {}
+    for b in blocks:
+        i, ends = _hist_ends(b)
+        if len(ends) >= 2:
+            rec = b[ends[-2]:ends[-1]]
+            m = re.search(r'op \|-> "(\w+)"', rec)
+            op = m.group(1)
+            if op == "rotate90":
+                a = "FieldRotate90" if 'tg |-> "self"' in rec else "MeshRotate90"
+            elif op == "setvalid":
+                a = {"array": "SetValidArray", "norm": "SetValidNorm", "none": "SetValidNone"}[re.search(r'kind \|-> "(\w+)"', rec).group(1)]
+            else:
+                a = ACTION_OF[op]
+            k = "fired:" + a + (":reject" if 'outcome |-> "reject"' in rec else "")
+            fired[k] = fired.get(k, 0) + 1
+    for k, v in fired.items():
+        ctx.notes[k] = ctx.notes.get(k, 0) + v
+    ctx.pmap(chunk, items, chunk=max(1, len(items) // 128))
     return inits
 
 
 def _replay_sim(ctx, df, files, embs):
     def chunk(items):
         part = Part()
-        for k, f in enumerate(items):
+        for f in items:
             beh = tlaval.parse_behaviour(f)
             if len(beh) < 2:
                 continue
-            states = [s for _, s in beh]
+            states = [W.canon(s) for _, s in beh]
             for s in states[1:]:
                 part.note("sim-fired:" + action_name(s["hist"][-1]))
-            emb = embs[zlib.crc32(f.encode()) % len(embs)]
-            replay_history(df, states[0], states, emb, part, ctx.scratch)
+            emb = embs[zlib.crc32(os.path.basename(f).encode()) % len(embs)]
+            replay_behaviour(df, states, emb, part, ctx.scratch)
             part.trace()
             part.note("sim_steps", len(states) - 1)
         return part
